@@ -255,6 +255,13 @@ func (s *Server) verifyConsensusFieldMain(cp *params.CaravelParams, seedHeader *
 		logging.Error("VerifyHeader failed")
 		return errors.New("illegal proposer")
 	}
+	// only online chamber members take part in the proposer sortition (see isProposer), and only a credential
+	// that won at least one seat is a proposer credential (VrfVerifyPriority verifies a zero-seat one as well).
+	if validator.Kind() != params.KindChamber || !validator.IsOnline() || consensusData.SubUsers == 0 {
+		logging.Error("VerifyHeader failed, proposer not entitled.", "Round", consensusData.Round, "addr", addr.String(),
+			"kind", validator.Kind(), "status", validator.Status, "subUsers", consensusData.SubUsers)
+		return errors.New("illegal proposer")
+	}
 	vs, err := vldReader.GetValidatorsStat()
 	if err != nil {
 		return err
